@@ -177,7 +177,7 @@ class Session:
                 elif secret.label == "RSA":
                     master_secret = key_derivator.gen_master_secret_tls_10_11(bytes.fromhex(secret.value),
                                                                               client_random, server_random)
-                    keys = key_derivator.dev_tls_10_11_keys(master_secret, client_random, server_random, key_length,
+                    keys = key_derivator.dev_tls_10_11_keys(master_secret, server_random, client_random, key_length,
                                                             mac_length, 2 * key_length + 2 * mac_length,
                                                             cipher_suite["CryptoAlgo"][0], cipher_suite["Mode"][1])
 
@@ -189,7 +189,7 @@ class Session:
                 elif secret.label == "RSA":
                     master_secret = key_derivator.gen_master_secret_ssl_30(bytes.fromhex(secret.value), client_random,
                                                                            server_random)
-                    keys = key_derivator.dev_ssl_30_keys(master_secret, client_random, server_random, key_length,
+                    keys = key_derivator.dev_ssl_30_keys(master_secret, server_random, client_random, key_length,
                                                          mac_length, 2 * key_length + 2 * mac_length,
                                                          cipher_suite["CryptoAlgo"][0], cipher_suite["CryptoAlgo"][1])
 
